@@ -14,6 +14,10 @@ def run(tier):
     for i in ids:
         for l in lens:
             jobs.append({"fn": "kdf", "outlen": l, "subkey_id": list(i.to_bytes(8, "little")), "ctx": det(8, "ctx"), "key": det(32, "master")})
+    # contexts with interior zero bytes, all-zero and all-0xff: every byte of the context is personalisation
+    for ctx in [[0] * 8, [255] * 8, [97, 98, 0, 99, 100, 101, 102, 103], [0, 1, 2, 3, 4, 5, 6, 7], [1, 0, 0, 0, 0, 0, 0, 9], [0, 0, 0, 0, 0, 0, 0, 1]]:
+        for l in [16, 32, 64]:
+            jobs.append({"fn": "kdf", "outlen": l, "subkey_id": list((7).to_bytes(8, "little")), "ctx": ctx, "key": det(32, "master")})
     outs, st = refeval.evaluate(jobs, recompute=len(jobs) if thorough else 5)
     ck.cov["reference_evaluation"] = st
     wd = workdir("c12")
